@@ -164,6 +164,40 @@ func (in *Interp) builtin(fr *Frame, b *ssa.Builtin, c *ssa.CallCommon, args []V
 			r = Ite(lt, y, r)
 		}
 		return r
+	case "Slice": // unsafe.Slice(ptr, n)
+		p := args[0].(PtrV)
+		n := int(in.concretize(args[1].(*Term), 0, 1<<20, true))
+		et := c.Signature().Results().At(0).Type().Underlying().(*types.Slice).Elem()
+		vw := widthOf(et)
+		if n == 0 {
+			return SliceV{}
+		}
+		if p.loc == nil {
+			in.abort("panic", "unsafe.Slice: nil pointer with non-zero length")
+		}
+		if p.arr == nil {
+			in.abort("unsupported", "unsafe.Slice on a pointer that is not an element pointer")
+		}
+		bt, ok := p.arr[p.idx].get().(*Term)
+		if !ok || vw == 0 {
+			in.abort("unsupported", "unsafe.Slice over non-scalar cells")
+		}
+		bw := bt.w
+		base := p.arr[p.idx:]
+		if bw == vw {
+			if n > len(base) {
+				in.abort("panic", "unsafe.Slice: length exceeds the underlying allocation")
+			}
+			return SliceV{arr: base, n: n, cp: n}
+		}
+		if n*vw > len(base)*bw {
+			in.abort("panic", "unsafe.Slice: view exceeds the underlying allocation (out-of-bounds memory)")
+		}
+		arr := make([]*Loc, n)
+		for i := range arr {
+			arr[i] = &Loc{view: &viewCell{base: base, bw: bw, vw: vw, idx: i}}
+		}
+		return SliceV{arr: arr, n: n, cp: n}
 	case "ssa:wrapnilchk":
 		return args[0]
 	case "recover":
@@ -404,7 +438,7 @@ func hexName(s string) string {
 func sliceBytes(s SliceV) []*Term {
 	b := make([]*Term, s.n)
 	for i := 0; i < s.n; i++ {
-		b[i] = s.arr[s.off+i].v.(*Term)
+		b[i] = s.arr[s.off+i].get().(*Term)
 	}
 	return b
 }
